@@ -194,9 +194,9 @@ def cases(ctx):
             if ctx.mine(i):
                 yield "buffer", c
             i += 1
-    for k in range(ctx.share(500 if quick else 20000)):
+    for k in range(ctx.share(3000 if quick else 20000)):
         yield "buffer", mkcase(rng, "R1")
-    for k in range(ctx.share(60 if quick else 1500)):
+    for k in range(ctx.share(300 if quick else 1500)):
         yield "buffer", mkcase(rng, "R2")
-    for k in range(ctx.share(40 if quick else 1000)):
+    for k in range(ctx.share(200 if quick else 1000)):
         yield "buffer", mkcase(rng, "noise", 0)
